@@ -17,7 +17,7 @@ def make_case(seed, t, nmax, precs="sd", drivers=("gssv",), force=None):
     kind = f.get("kind")
     if isinstance(kind, (list, tuple)):
         kind = rng.choice(list(kind))
-    M = G.random_matrix(rng, n, kind, vmode, cplx=prec in "cz", dominant=bool(f.get("dominant")))
+    M = G.random_matrix(rng, n, kind, vmode, cplx=prec in "cz", dominant=f.get("dominant") or False)
     if prec in "sc":
         G.round_single(M)
     nrhs = f.get("nrhs", rng.choice([0, 1, 1, 1, 2, 3]))
